@@ -37,6 +37,7 @@ Fixpoint ideal_render (ne neg : bool) (c : ctree) {struct c} : outcome str :=
   end.
 
 Definition ideal_cond (E : env) (ne : bool) (dets : list (str * list ditem)) (k : str) : outcome str :=
+  if mem c_pipe k then SigmaErr E_Condition else
   match e_parse E k with
   | None => SigmaErr E_Condition
   | Some t => obind (resolve dets t) (ideal_render ne false)
